@@ -755,7 +755,7 @@ func TestVerifC02(t *testing.T) {
 	} else {
 		vC02Enumerate(1, false, runOne)
 	}
-	n := k.N(1000, 4000)
+	n := k.N(800, 4000)
 	for i := 0; i < n; i++ {
 		runOne(vC02GenCase(k.rnd, k.thorough()))
 	}
